@@ -18,6 +18,7 @@ package trusted
 
 //@ trusted func bufio.NewReader
 //@   ensures nonnil: r0 != nil
+//@   assigns nothing
 
 //@ trusted func bytes.NewBuffer
 //@   ensures nonnil: r0 != nil
@@ -80,3 +81,17 @@ package trusted
 //@ trusted func (time.Time).Nanosecond
 //@   pure
 //@   ensures range: 0 <= r0 && r0 < 1000000000
+
+//@ trusted func encoding/json.Unmarshal
+//@   assigns v
+
+//@ trusted func github.com/google/uuid.FromBytes
+//@   assigns nothing
+
+//@ trusted func (*bytes.Buffer).Write
+//@   ensures all: r0 == len(p) && r1 == nil
+//@   assigns self
+
+//@ trusted func (*bytes.Buffer).Read
+//@   ensures count: 0 <= r0 && r0 <= len(p)
+//@   assigns p, self
